@@ -163,7 +163,7 @@ func runC01(r *Run, p *Prog) {
 						rb = c
 					}
 				}
-				if t := staticTarget(cs.Common); t == ro.Handle {
+				if t := staticTarget(cs.Common); isDispatchTarget(p, ro, t) {
 					if c, ok := cs.Instr.(*ssa.Call); ok {
 						hm = c
 					} else {
@@ -179,7 +179,7 @@ func runC01(r *Run, p *Prog) {
 			inLoop := blockInLoop(rb.Block()) && blockInLoop(hm.Block())
 			r.Ob("R4", fn, "read and dispatch are in one loop, read before dispatch", rb.Pos(), inLoop, "the frame read and the dispatch are not in a common loop")
 			// request is this iteration's frame
-			reqT := strip(T.T(hm.Call.Args[3]))
+			reqT := strip(T.T(bytesArg(&hm.Call)))
 			rbT := strip(T.T(rb))
 			okReq := strings.HasPrefix(reqT, "slice(ext("+rbT+",0),")
 			r.Ob("R4", fn, "the dispatched request is a slice of this iteration's frame", hm.Pos(), okReq, "dispatched bytes are "+reqT)
